@@ -623,32 +623,54 @@ func Names(a Annot) []*Shape {
 	return out
 }
 
-// UserDefined: @fp.Value structs with a user-written member that gombok must not generate again.
-// The user-written member does what the generated one would do, so the laws stay applicable.
-func UserDefined() []*Shape {
+// UserDefined: structs that declare by hand ONE member gombok would otherwise generate (every
+// method name cmd/gombok/gombok.go looks up with Info.Method.Get / isMethodDefined / isTypeDefined
+// before generating: getters, With/WithSome/WithNone, String, AsTuple, Unapply, AsMap, AsMutable,
+// AsLabelled, Builder, MarshalJSON, UnmarshalJSON, the Builder type with Build / a setter /
+// FromMap, the Mutable type), the pair MarshalJSON+UnmarshalJSON, and none. The hand-written
+// member does what the generated one would do, so all laws stay applicable: the generated file
+// must compile with the package (no duplicate), every other member must still be generated and
+// the laws hold for the mix. json selects the annotation set (Value+Json for C15, else
+// Value+Json+GenLabelled).
+func UserDefined(a Annot) []*Shape {
 	type ud struct{ id, code string }
+	const marshal = "func (r %N) MarshalJSON() ([]byte, error) { return json.Marshal(r.AsMutable()) }"
+	const unmarshal = "func (r *%N) UnmarshalJSON(b []byte) error {\n\tif r == nil {\n\t\treturn fmt.Errorf(\"target ptr is nil\")\n\t}\n\tm := r.AsMutable()\n\tif err := json.Unmarshal(b, &m); err != nil {\n\t\treturn err\n\t}\n\t*r = m.AsImmutable()\n\treturn nil\n}"
 	uds := []ud{
+		{"none", "// no user-written member"},
 		{"getter", "func (r %N) Fa() int { return r.fa }"},
+		{"getter-option", "func (r %N) Fc() fp.Option[int] { return r.fc }"},
 		{"with", "func (r %N) WithFa(v int) %N { r.fa = v; return r }"},
+		{"with-option", "func (r %N) WithFc(v fp.Option[int]) %N { r.fc = v; return r }"},
 		{"with-some", "func (r %N) WithSomeFc(v int) %N { r.fc = option.Some(v); return r }"},
 		{"with-none", "func (r %N) WithNoneFc() %N { r.fc = option.None[int](); return r }"},
-		{"string", "func (r %N) String() string { return \"user\" }"},
+		{"string", "func (r %N) String() string { return fmt.Sprintf(\"S(%v,%v,%v)\", r.fa, r.Fb, r.fc) }"},
 		{"as-tuple", "func (r %N) AsTuple() fp.Tuple3[int, string, fp.Option[int]] { return as.Tuple3(r.fa, r.Fb, r.fc) }"},
 		{"unapply", "func (r %N) Unapply() (int, string, fp.Option[int]) { return r.fa, r.Fb, r.fc }"},
 		{"as-map", "func (r %N) AsMap() map[string]any { m := map[string]any{\"fa\": r.fa, \"Fb\": r.Fb}; if r.fc.IsDefined() { m[\"fc\"] = r.fc.Get() }; return m }"},
+		{"as-mutable", "func (r %N) AsMutable() %NMutable { return %NMutable{Fa: r.fa, Fb: r.Fb, Fc: r.fc} }"},
+		{"builder-method", "func (r %N) Builder() %NBuilder { return %NBuilder(r) }"},
 		{"builder-type", "type %NBuilder %N"},
 		{"builder-type-and-setter", "type %NBuilder %N\n\nfunc (r %NBuilder) Fa(v int) %NBuilder { r.fa = v; return r }"},
 		{"builder-type-and-build", "type %NBuilder %N\n\nfunc (r %NBuilder) Build() %N { return %N(r) }"},
 		{"builder-type-and-from-map", "type %NBuilder %N\n\nfunc (r %NBuilder) FromMap(m map[string]any) %NBuilder {\n\tif v, ok := m[\"fa\"].(int); ok { r.fa = v }\n\tif v, ok := m[\"Fb\"].(string); ok { r.Fb = v }\n\tif v, ok := m[\"fc\"].(fp.Option[int]); ok { r.fc = v } else if v, ok := m[\"fc\"].(int); ok { r.fc = option.Some(v) }\n\treturn r\n}"},
 		{"mutable-type", "type %NMutable struct {\n\tFa int\n\tFb string\n\tFc fp.Option[int]\n}"},
-		{"marshal-json", "func (r %N) MarshalJSON() ([]byte, error) { return []byte(\"{}\"), nil }"},
+		{"marshal-json", marshal},
+		{"unmarshal-json", unmarshal},
+		{"marshal-and-unmarshal-json", marshal + "\n\n" + unmarshal},
 		{"pointer-receiver-method", "func (r *%N) Reset() { *r = %N{} }"},
+	}
+	if a.Labelled() {
+		uds = append(uds, ud{"as-labelled", "func (r %N) AsLabelled() fp.Labelled3[NamedFa[int], PubNamedFb[string], NamedFc[fp.Option[int]]] {\n\treturn as.Labelled3(NamedFa[int]{r.fa, \"\"}, PubNamedFb[string]{r.Fb, \"\"}, NamedFc[fp.Option[int]]{r.fc, \"\"})\n}"})
 	}
 	var out []*Shape
 	for _, u := range uds {
-		s := mkShape("user-defined", AnnVJL, []Form{{"priv", kindByID("int")}, {"pub", kindByID("string")}, {"priv", kindByID("opt-int")}}, nil)
+		s := mkShape("user-defined", a, []Form{{"priv", kindByID("int")}, {"pub", kindByID("string")}, {"priv", kindByID("opt-int")}}, nil)
 		if u.id == "mutable-type" {
-			s.Annot = AnnVL // a user-written Mutable type carries no json tags
+			if a.Json() && !a.Labelled() {
+				continue // a user-written Mutable type carries no json tags: outside the C15 laws
+			}
+			s.Annot = AnnVL
 		}
 		s.User = u.code
 		s.UserID = u.id
@@ -851,6 +873,12 @@ func (s *Shape) DeclFile(pkg, name string) string {
 		}
 		if strings.Contains(s.User, "fp.") {
 			imps[fpImp] = true
+		}
+		if strings.Contains(s.User, "json.") {
+			imps["encoding/json"] = true
+		}
+		if strings.Contains(s.User, "fmt.") {
+			imps["fmt"] = true
 		}
 	}
 	var list []string
